@@ -317,3 +317,52 @@ func JSON(v any) string {
 	}
 	return string(b)
 }
+
+// RefTemplate is the single-pass reference substitution of C42: tokens maps literal
+// placeholders (e.g. "$MTX_PATH") to values; "$G<n>" takes the longest canonical decimal
+// index in 1..len(groups)-1; inserted text is never rescanned.
+func RefTemplate(tpl string, tokens map[string]string, groups []string) string {
+	var out []byte
+	for i := 0; i < len(tpl); {
+		if tpl[i] != '$' {
+			out = append(out, tpl[i])
+			i++
+			continue
+		}
+		matched := false
+		for tok, val := range tokens {
+			if len(tpl)-i >= len(tok) && tpl[i:i+len(tok)] == tok {
+				out = append(out, val...)
+				i += len(tok)
+				matched = true
+				break
+			}
+		}
+		if matched {
+			continue
+		}
+		if i+2 < len(tpl)+0 && tpl[i+1] == 'G' {
+			j := i + 2
+			for j < len(tpl) && tpl[j] >= '0' && tpl[j] <= '9' {
+				j++
+			}
+			done := false
+			for e := j; e > i+2; e-- {
+				ds := tpl[i+2 : e]
+				n, err := strconv.Atoi(ds)
+				if err == nil && strconv.Itoa(n) == ds && n >= 1 && n < len(groups) {
+					out = append(out, groups[n]...)
+					i = e
+					done = true
+					break
+				}
+			}
+			if done {
+				continue
+			}
+		}
+		out = append(out, '$')
+		i++
+	}
+	return string(out)
+}
